@@ -67,6 +67,9 @@ class Binder:
                 return pg.Any(*kids, variable=i)
             if self.as_iter:
                 kids = iter(kids) if kind in ('AtLeast', 'AtMost') else kids
+                if kind in ('AtLeast', 'AtMost') and isinstance(extra, int):
+                    import numpy as _np
+                    extra = _np.int64(extra)      # thresholds as numpy integers as well
             if kind == 'AtLeast':
                 if isinstance(extra, tuple) and extra[0] == 'sign':
                     return pg.AtLeast(extra[2], kids, variable=i, sign=extra[1])
